@@ -1,10 +1,153 @@
 import SV.Driver.Util
-/- svdriver_c16: line protocol for the C16 model (stub until the model is built). -/
+import SV.Model.Store
+/-
+svdriver_c16: line protocol for the C16 model (SV.Store).  Digests and references travel as the
+small indices the harness assigns to them.
+  image <ref> <ld>:<toc> ...            -> ok          registry truth (manifest order)
+  reset                                 -> ok          fresh LayerManager
+  lookup <ref> <toc> <mf> <bits>        -> ok <id> | err          getLayer
+  info <ref> <toc> <mf>                 -> ok - | ok <idx> | err  getLayerInfo
+  use <ref> <toc>                       -> <count>
+  release <ref> <toc>                   -> ok <count> | err
+  nlookup <ref> <toc> diff|blob|info <mf> <bits>   -> ok | eio    layernode.Lookup
+  ncreate <ref> <toc>                   -> enoent                 layernode.Create("use")
+  nrmdir <ref> <toc>                    -> enoent | eio           refnode.Rmdir
+  snap                                  -> L=.. C=.. M=.. D=.. P=.. K=..
+<mf> is the registry's answer for the manifest (0/1), <bits> one 0/1 per manifest layer ("-" if none).
+-/
 namespace SV.Driver.C16
+open SV.Driver SV.Store
 
-def step (s : Unit) : List String → Unit × String
-  | _ => (s, "bad-op")
+structure DSt where
+  truth : List (Ref × List (LDigest × Toc)) := []
+  st : St := {}
+
+def truthOf (d : DSt) : Truth :=
+  ⟨fun r => (d.truth.find? (fun p => p.1 == r)).map (·.2)⟩
+
+def parsePair? (s : String) : Option (Nat × Nat) :=
+  match s.splitOn ":" with
+  | [a, b] => do
+    let a ← parseNat? a
+    let b ← parseNat? b
+    some (a, b)
+  | _ => none
+
+def parseBit? (s : String) : Option Bool :=
+  if s = "1" then some true else if s = "0" then some false else none
+
+def parseBits? (s : String) : Option (List Bool) :=
+  if s = "-" then some [] else
+  s.toList.mapM fun c => if c = '1' then some true else if c = '0' then some false else none
+
+/-- the oracle described by one op line; `none` when the bits do not fit the image or give two
+answers for one digest. -/
+def mkOracle? (d : DSt) (r : Ref) (mf : Bool) (bits : List Bool) : Option Oracle :=
+  let ls := ((truthOf d).images r).getD []
+  if ls.length ≠ bits.length then none else
+  let tab := (ls.zip bits).map fun p => (p.1.1, p.2)
+  if tab.any (fun p => tab.any fun q => p.1 == q.1 && p.2 != q.2) then none else
+  some ⟨fun r' => if r' = r then mf else true,
+        fun r' dg => if r' = r then ((tab.find? (fun p => p.1 == dg)).map (·.2)).getD false else true⟩
+
+def insertBy {α : Type} (lt : α → α → Bool) (x : α) : List α → List α
+  | [] => [x]
+  | y :: ys => if lt x y then x :: y :: ys else y :: insertBy lt x ys
+
+def sortBy {α : Type} (lt : α → α → Bool) (xs : List α) : List α := xs.foldr (insertBy lt) []
+
+def joinOr (xs : List String) : String := if xs.isEmpty then "-" else ",".intercalate xs
+
+def flat {V : Type} (m : Map (Map V)) : List (Nat × Nat × V) :=
+  m.flatMap fun p => p.2.map fun q => (p.1, q.1, q.2)
+
+def lt2 {V : Type} (a b : Nat × Nat × V) : Bool := a.1 < b.1 || (a.1 == b.1 && a.2.1 < b.2.1)
+
+def snap (s : St) : String :=
+  let ls := (sortBy lt2 (flat s.layer)).map fun e => s!"{e.1}:{e.2.1}={e.2.2.id}"
+  let cs := (sortBy lt2 (flat s.refcounter)).map fun e => s!"{e.1}:{e.2.1}={e.2.2}"
+  let ms := (sortBy lt2 (flat s.memo)).map fun e =>
+    s!"{e.1}:{e.2.1}={match e.2.2 with | .ok => "ok" | .err => "err"}"
+  let ds := (sortBy (fun a b => decide (a < b)) s.done).map toString
+  let ps := (sortBy (fun (a b : Nat × Int) => decide (a.1 < b.1)) s.pool).map fun e => s!"{e.1}={e.2}"
+  let ks := (sortBy (fun a b => decide (a < b)) s.disk).map toString
+  s!"L={joinOr ls} C={joinOr cs} M={joinOr ms} D={joinOr ds} P={joinOr ps} K={joinOr ks}"
+
+def step (d : DSt) : List String → DSt × String
+  | "image" :: r :: ls =>
+    match parseNat? r, ls.mapM parsePair? with
+    | some r, some ls => ({ d with truth := (r, ls) :: d.truth.filter (fun p => p.1 != r) }, "ok")
+    | _, _ => (d, "bad-op")
+  | ["reset"] => ({ d with st := {} }, "ok")
+  | ["lookup", r, t, mf, bits] =>
+    match parseNat? r, parseNat? t, parseBit? mf, parseBits? bits with
+    | some r, some t, some mf, some bits =>
+      match mkOracle? d r mf bits with
+      | some o =>
+        match lookup (truthOf d) o d.st r t with
+        | (s, .layer l) => ({ d with st := s }, s!"ok {l.id}")
+        | (s, .err) => ({ d with st := s }, "err")
+        | (s, _) => ({ d with st := s }, "model-error")
+      | none => (d, "bad-op")
+    | _, _, _, _ => (d, "bad-op")
+  | ["nlookup", r, t, kind, mf, bits] =>
+    match parseNat? r, parseNat? t, parseBit? mf, parseBits? bits with
+    | some r, some t, some mf, some bits =>
+      if kind = "info" then
+        let o : Oracle := ⟨fun r' => if r' = r then mf else true, fun _ _ => true⟩
+        match info (truthOf d) o d.st r t with
+        | (s, .info _) => ({ d with st := s }, "ok")
+        | (s, _) => ({ d with st := s }, "eio")
+      else if kind = "diff" ∨ kind = "blob" then
+        match mkOracle? d r mf bits with
+        | some o =>
+          match lookup (truthOf d) o d.st r t with
+          | (s, .layer l) =>
+            -- `l.Verify(n.digest)`: the TOC digest of the instance against the directory name
+            ({ d with st := s }, if l.toc = t then "ok" else "eio")
+          | (s, _) => ({ d with st := s }, "eio")
+        | none => (d, "bad-op")
+      else (d, "bad-op")
+    | _, _, _, _ => (d, "bad-op")
+  | ["info", r, t, mf] =>
+    match parseNat? r, parseNat? t, parseBit? mf with
+    | some r, some t, some mf =>
+      let o : Oracle := ⟨fun r' => if r' = r then mf else true, fun _ _ => true⟩
+      match info (truthOf d) o d.st r t with
+      | (s, .info none) => ({ d with st := s }, "ok -")
+      | (s, .info (some i)) => ({ d with st := s }, s!"ok {i}")
+      | (s, .err) => ({ d with st := s }, "err")
+      | (s, _) => ({ d with st := s }, "model-error")
+    | _, _, _ => (d, "bad-op")
+  | ["use", r, t] =>
+    match parseNat? r, parseNat? t with
+    | some r, some t =>
+      match use d.st r t with
+      | (s, .count n) => ({ d with st := s }, s!"{n}")
+      | (s, _) => ({ d with st := s }, "model-error")
+    | _, _ => (d, "bad-op")
+  | ["ncreate", r, t] =>
+    match parseNat? r, parseNat? t with
+    | some r, some t => ({ d with st := (use d.st r t).1 }, "enoent")
+    | _, _ => (d, "bad-op")
+  | ["release", r, t] =>
+    match parseNat? r, parseNat? t with
+    | some r, some t =>
+      match release d.st r t with
+      | (s, .count n) => ({ d with st := s }, s!"ok {n}")
+      | (s, .err) => ({ d with st := s }, "err")
+      | (s, _) => ({ d with st := s }, "model-error")
+    | _, _ => (d, "bad-op")
+  | ["nrmdir", r, t] =>
+    match parseNat? r, parseNat? t with
+    | some r, some t =>
+      match release d.st r t with
+      | (s, .count _) => ({ d with st := s }, "enoent")
+      | (s, _) => ({ d with st := s }, "eio")
+    | _, _ => (d, "bad-op")
+  | ["snap"] => (d, snap d.st)
+  | _ => (d, "bad-op")
 
 end SV.Driver.C16
 
-def main : IO Unit := SV.Driver.loop SV.Driver.C16.step ()
+def main : IO Unit := SV.Driver.loop SV.Driver.C16.step {}
